@@ -101,6 +101,13 @@ class Case:
         return (o[0], o[0] == 'ok')
 
 
+def _blen(tok):
+    """byte length of a (normalised hex / run-length) value token"""
+    if tok.startswith('*'):
+        return int(tok[1:].split(':')[0])
+    return len(tok) // 2
+
+
 def _fold(entries):
     m = {}
     for seq, op, k, v in entries:
@@ -133,6 +140,14 @@ def applier_oracle(script, impl):
             frm, n = int(o[1]), int(o[2])
             got = [int(x) for x in o[3:3 + n]]
             want = [i for i, e in enumerate(c.L) if e[0] >= frm][:100]
+            # response byte cap (8 MiB of key+value bytes): the longest prefix within the cap, the first entry always
+            tot, keep = 0, 0
+            for j, i in enumerate(want):
+                tot += _blen(c.L[i][2]) + _blen(c.L[i][3])
+                if j > 0 and tot > 8 * 1024 * 1024:
+                    break
+                keep = j + 1
+            want = want[:keep]
             if got != want:
                 probs.append('kind=selection entries from %d: primary selected %d entries %s.., expected %d entries %s..' % (
                     frm, len(got), got[:3], len(want), want[:3]))
